@@ -255,6 +255,39 @@ theorem C14_new_migration_at_source (p0 p : Um.E2E.ProxyState) (m : Um.E2E.EMeta
   have hadv := advList_migrating_pre hp (statesOf p) hsl ho hown hmig (by rw [hrl]; exact hpre)
   exact ⟨ns, es, hns, hes, by rw [hno, hadv]; rfl, by rw [hso, hadv]; rfl⟩
 
+/-- **a switch command with a foreign meta is refused and leaves the advert unchanged**: `UMCTL PRECHECK /
+PRESWITCH / FINALSWITCH` is accepted only under the exact `MigrationTaskMeta` (cluster, range list, migration epoch,
+the four addresses) of an installed task; a command whose importing-tagged meta is not a key of the task map — a late
+command of a replaced migration over the same range, another epoch, another address, a shifted range — is not
+answered OK, and every command that is not answered OK leaves the proxy state, hence CLUSTER NODES and CLUSTER SLOTS,
+exactly as they were. -/
+theorem C14_stray_switch (h : Hist) (key : Um.E2E.TaskKey) (sub : Um.E2E.MgrSub) (v : Version) :
+    ((∀ k', importingKey key = some k' → ∀ t ∈ h.p.tasks, t.key ≠ k') → (h.switch key sub).2 ≠ .ok) ∧
+    ((h.switch key sub).2 ≠ .ok →
+      (h.switch key sub).1 = h ∧ (h.switch key sub).1.nodes v = h.nodes v ∧ (h.switch key sub).1.slots = h.slots) := by
+  refine ⟨fun hk => handleSwitch_foreign h.p key sub hk, fun hr => ?_⟩
+  have hp : (Um.E2E.handleSwitch h.p key sub).1 = h.p := handleSwitch_refused h.p key sub hr
+  have : (h.switch key sub).1 = h := by
+    unfold Hist.switch
+    simp only [hp]
+  rw [this]
+  exact ⟨rfl, rfl, rfl⟩
+
+/-- **timers alone never move a range**: the expiry of `max_migration_time` ("force to commit migration") or of
+`max_blocking_time` stores no state — a migrating task leaves `PreCheck` only on an acknowledged PRECHECK, … and
+reaches `SwitchCommitted` only on an acknowledged FINALSWITCH (`srcStep`) — so what the source advertises is unchanged
+until the destination has acknowledged a step. -/
+theorem C14_timer_changes_nothing (h : Hist) (key : Um.E2E.TaskKey) (t : SrcTimer) (v : Version) :
+    statesOf (h.timer key t).p = statesOf h.p ∧ (h.timer key t).nodes v = h.nodes v ∧ (h.timer key t).slots = h.slots :=
+  ⟨rfl, rfl, rfl⟩
+
+-- non-vacuity of `C14_stray_switch`: after `exM2` a late FINALSWITCH of a former migration over the same range
+-- 8192-9191 (older migration epoch, other source) is answered TASK_NOT_FOUND, the exact one is accepted
+example : (Um.E2E.handleSwitch { epoch := 2, migCluster := "hist", tasks := Um.E2E.updateTasks "hist" exTasks1 exM2.loc }
+      ⟨"hist", ⟨[(8192, 9191)], .migrating { exI2 with epoch := 0, srcProxy := "127.0.0.1:5199" }⟩⟩ .finalSwitch).2 = .taskNotFound ∧
+    (Um.E2E.handleSwitch { epoch := 2, migCluster := "hist", tasks := Um.E2E.updateTasks "hist" exTasks1 exM2.loc }
+      ⟨"hist", ⟨[(8192, 9191)], .migrating exI2⟩⟩ .finalSwitch).2 = .ok := by decide +kernel
+
 -- non-vacuity (`exM1`, `exM2`, `exTasks1` in UmProofs/NodesHist.lean): the destination keeps the running task of
 -- 0-999 in `PreSwitch` and gets a task in `PreCheck` for 8192-9191, which a later install lists after it
 example : taskStates (Um.E2E.updateTasks "hist" exTasks1 exM2.loc) =
